@@ -204,7 +204,9 @@ def run(ctx):
             for r, px in got.items():
                 if px is not p0:
                     ctx.violation("C11:same-base-prefix-arithmetic", f"prefix {b}^{e} reached through {r} is {px!r}, first created through {first} as {p0!r}", {**case, "route": r})
-            if type(p0.exponent) is not int or p0.exponent != e or p0.base != b:
+            # the statement asks for exact *values*, not for a particular numeric type: an exponent 40.0 is only wrong through
+            # what it does to the values below (10**40.0 is not 10**40)
+            if p0.exponent != e or p0.base != b:
                 ctx.violation("C11:prefix-exponent-not-exact", f"prefix {b}^{e} first created through {first} carries exponent {p0.exponent!r} ({type(p0.exponent).__name__})", case)
             q = 3 * (p0 * Meter)
             try:
@@ -214,7 +216,7 @@ def run(ctx):
                 continue
             exact = Fraction(b) ** e
             ctx.count("identities/exact_prefix_value")
-            if e > 0 and (un != 3 * b**e or val != b**e or not isinstance(un, int)):
+            if e > 0 and (un != 3 * b**e or val != b**e):
                 ctx.violation("C11:unprefixed-changes-value", f"3*({b}^{e}*meter).unprefixed() = {un!r}, exact {3 * b**e} (prefix first created through {first})", case)
             elif e < 0 and not (close(un, 3 * exact, R12) and close(val, exact, R12)):
                 ctx.violation("C11:unprefixed-changes-value", f"3*({b}^{e}*meter).unprefixed() = {un!r}, exact {core.sf(3 * exact)!r} (prefix first created through {first})", case)
